@@ -39,6 +39,16 @@ class World:
             return rel + "/"
         if how == "dotdot":
             return os.path.join("..", os.path.basename(self.cwd), rel)  # leaves cwd and comes back
+        if how in ("symlink_dotdot", "symlink_dotdot_rel"):
+            # <sandbox>/lnk-N is a symbolic link to a directory NEXT TO the target: "lnk-N/../leaf" is the target for
+            # the kernel, while a lexical normalisation would give "<sandbox>/leaf"
+            parent, leaf = os.path.split(path.rstrip(os.sep))
+            os.makedirs(os.path.join(parent, "zz-linktarget"), exist_ok=True)
+            link = os.path.join(self.sandbox, "lnk-%d" % (abs(hash(parent)) % 1000 if False else len(parent)))
+            if not os.path.islink(link):
+                os.symlink(os.path.join(parent, "zz-linktarget"), link)
+            spelled = os.path.join(link, "..", leaf)
+            return spelled if how == "symlink_dotdot" else os.path.join(os.path.relpath(link, self.cwd), "..", leaf)
         raise ValueError(how)
 
     def argv(self, opts: dict) -> typing.List[str]:
